@@ -593,7 +593,7 @@ theorem readArg_chunk (fx : Fix) (sp : Spec) (v : Val) (c data rest : List Byte)
           = body.length + junk.length := by
         unfold align4 at hjl; split <;> omega
       rw [hsize]
-      have hlt : ¬ ((body ++ junk ++ rest).length < body.length + junk.length) := by simp; omega
+      have hlt : ¬ ((body ++ junk ++ rest).length < body.length + junk.length) := by simp
       rw [if_neg hlt]
       have ht : (body ++ junk ++ rest).take (body.length + junk.length) = body ++ junk :=
         List.take_left' (by simp)
@@ -706,5 +706,369 @@ theorem decode_chunks (fx : Fix) : ∀ (specs : List Spec) (vals : List Val) (cs
       rw [decode_chunk fx sp v specs c cs' h1 (hwf sp (by simp)),
         ih vals cs' (fun s hs => hwf s (by simp [hs])) h2]
       simp
+
+/-! ## run-level statements used by Props/C09 -/
+open Uft.Gen.Layout
+
+theorem parse_pack (fx : Fix) (specs : List Spec) (vals : List Val) (m0 : Mem)
+    (payload rest : List Byte)
+    (hlen : vals.length = specs.length) (hwf : ∀ sp ∈ specs, WF sp) (hv : ∀ v ∈ vals, ValOk v)
+    (h : packArgs fx specs vals m0 = .ok payload) :
+    readArgs specs (payload ++ padTo8 payload.length ++ rest) = some (payload, rest) ∧
+    decodeVals specs payload = (specs.zip vals).map (fun p => obs fx p.1 p.2) := by
+  unfold packArgs at h
+  simp only at h
+  split at h
+  · cases h
+  · split at h
+    · cases h
+    · rename_i _ htot
+      injection h with h
+      obtain ⟨cs, h1, h2⟩ := packRun_chunks fx specs vals (St.init m0) hlen hv (Nat.zero_le _) (by omega)
+      have hp : payload = cs := by
+        rw [← h]; unfold St.payload; rw [h1]; simp [St.init, Mem.rd]
+      subst hp
+      refine ⟨?_, decode_chunks fx specs vals payload hwf h2⟩
+      unfold readArgs
+      rw [List.append_assoc, readLoop_chunks fx specs vals payload [] (padTo8 payload.length ++ rest) hwf h2 rfl]
+      simp only [List.nil_append]
+      congr 2
+      have hpl : (padTo8 payload.length).length = align8 payload.length - payload.length := by
+        simp [padTo8]
+      split
+      · rw [List.drop_left']
+        rw [hpl]; unfold align8; omega
+      · have : padTo8 payload.length = [] := by
+          apply List.eq_nil_of_length_eq_zero
+          rw [hpl]; unfold align8; omega
+        rw [this]; rfl
+
+
+/-- one recorded ENTRY/EXIT with its fetched values -/
+structure Call where
+  time : Nat
+  type : Nat
+  depth : Nat
+  addr : Nat
+  specs : List Spec       -- all specs registered for `addr`
+  vals : List Val         -- the fetched values of the selected specs
+  m0 : Mem                -- the slice before the call
+
+
+def Call.chosen (c : Call) : List Spec := Uft.Argbuf.sel (c.type == 1) c.specs
+
+
+/-- save_argument / save_retval: too big (or out of bounds) data is dropped, the record has no payload -/
+def Call.payload (fx : Fix) (c : Call) : Option (List Byte) :=
+  match packArgs fx c.chosen c.vals c.m0 with
+  | .ok p => some p
+  | .error _ => none
+
+
+def Call.bytes (fx : Fix) (c : Call) : List Byte := recordBytes c.time c.type c.depth c.addr (c.payload fx)
+
+
+def Call.toRec (fx : Fix) (c : Call) : Rec := ⟨c.time, c.type, c.depth, c.addr, c.payload fx⟩
+
+
+def CallOk (specOf : Nat → List Spec) (c : Call) : Prop :=
+  c.type < 2 ∧ c.depth < 1024 ∧ c.addr < 2 ^ 48 ∧ c.time < 2 ^ 64 ∧ specOf c.addr = c.specs ∧
+  c.vals.length = c.chosen.length ∧ (∀ sp ∈ c.specs, WF sp) ∧ ∀ v ∈ c.vals, ValOk v
+
+
+theorem unpack_pack (type depth addr : Nat) (more : Bool)
+    (ht : type < 4) (hd : depth < 1024) (ha : addr < 2 ^ 48) :
+    unpackType (packWord type more depth addr) = type ∧
+    unpackMore (packWord type more depth addr) = (if more then 1 else 0) ∧
+    unpackMagic (packWord type more depth addr) = RECORD_MAGIC ∧
+    unpackDepth (packWord type more depth addr) = depth ∧
+    unpackAddr (packWord type more depth addr) = addr := by
+  have h4 : type = 0 ∨ type = 1 ∨ type = 2 ∨ type = 3 := by omega
+  have hm : depth &&& 1023 = depth % 1024 := Nat.and_two_pow_sub_one_eq_mod depth 10
+  rcases h4 with rfl | rfl | rfl | rfl <;> cases more <;>
+    simp [packWord, unpackType, unpackMore, unpackMagic, unpackDepth, unpackAddr, field,
+      RECORD_MAGIC, typeShift, typeWidth, moreShift, moreWidth, magicShift, magicWidth,
+      depthShift, depthWidth, addrShift, addrWidth, Nat.shiftLeft_eq, Nat.shiftRight_eq_div_pow, hm] <;>
+    omega
+
+
+theorem packWord_lt (type depth addr : Nat) (more : Bool) : packWord type more depth addr < 2 ^ 64 := by
+  unfold packWord; exact Nat.mod_lt _ (by decide)
+
+
+theorem sel_wf {specs : List Spec} (b : Bool) (h : ∀ sp ∈ specs, WF sp) : ∀ sp ∈ sel b specs, WF sp := by
+  intro sp hsp
+  unfold sel at hsp
+  exact h sp (List.mem_filter.mp hsp).1
+
+
+theorem decode_step (fx : Fix) (specOf : Nat → List Spec) (c : Call) (hok : CallOk specOf c)
+    (fuel : Nat) (tail : List Byte) :
+    decodeAll specOf (fuel + 1) (c.bytes fx ++ tail) =
+      match decodeAll specOf fuel tail with
+      | some rs => some (c.toRec fx :: rs)
+      | none => none := by
+  obtain ⟨ht, hd, ha, htime, hspec, hlen, hwf, hv⟩ := hok
+  obtain ⟨u1, u2, u3, u4, u5⟩ := unpack_pack c.type c.depth c.addr (c.payload fx).isSome (by omega) hd ha
+  -- shape of the bytes
+  have hbytes : c.bytes fx ++ tail = leBytes 8 c.time ++ (leBytes 8 (packWord c.type (c.payload fx).isSome c.depth c.addr) ++
+      ((match c.payload fx with | some p => p ++ padTo8 p.length | none => []) ++ tail)) := by
+    unfold Call.bytes recordBytes hdrBytes
+    cases c.payload fx <;> simp
+  rw [hbytes]
+  conv => lhs; unfold decodeAll
+  have hne : (leBytes 8 c.time ++ (leBytes 8 (packWord c.type (c.payload fx).isSome c.depth c.addr) ++
+      ((match c.payload fx with | some p => p ++ padTo8 p.length | none => []) ++ tail))).isEmpty = false := by
+    simp [leBytes]
+  have hlen16 : ¬ (leBytes 8 c.time ++ (leBytes 8 (packWord c.type (c.payload fx).isSome c.depth c.addr) ++
+      ((match c.payload fx with | some p => p ++ padTo8 p.length | none => []) ++ tail))).length < 16 := by
+    simp; omega
+  rw [hne]
+  simp only [Bool.false_eq_true, if_false]
+  rw [if_neg hlen16]
+  have htk : ∀ (x : List Byte), (leBytes 8 c.time ++ x).take 8 = leBytes 8 c.time :=
+    fun x => List.take_left' (leBytes_length _ _)
+  have hdr8 : ∀ (x : List Byte), (leBytes 8 c.time ++ x).drop 8 = x :=
+    fun x => List.drop_left' (leBytes_length _ _)
+  have hdr16 : ∀ (w : Nat) (x : List Byte), (leBytes 8 c.time ++ (leBytes 8 w ++ x)).drop 16 = x := by
+    intro w x
+    have : (leBytes 8 c.time ++ (leBytes 8 w ++ x)) = (leBytes 8 c.time ++ leBytes 8 w) ++ x := by simp
+    rw [this]; exact List.drop_left' (by simp)
+  rw [htk, hdr8, List.take_left' (leBytes_length _ _), hdr16, ofLe_leBytes, ofLe_leBytes]
+  have e64 : (256 : Nat) ^ 8 = 2 ^ 64 := by decide
+  have hm1 : c.time % 256 ^ 8 = c.time := Nat.mod_eq_of_lt (by rw [e64]; exact htime)
+  have hm2 : packWord c.type (c.payload fx).isSome c.depth c.addr % 256 ^ 8
+      = packWord c.type (c.payload fx).isSome c.depth c.addr :=
+    Nat.mod_eq_of_lt (by rw [e64]; exact packWord_lt _ _ _ _)
+  rw [hm1, hm2, u1, u2, u3, u4, u5]
+  simp only [ne_eq, not_true_eq_false, if_false]
+  cases hp : c.payload fx with
+  | none =>
+    simp only [Option.isSome_none, Bool.false_eq_true, if_false, List.nil_append]
+    have : (0 : Nat) ≠ 1 := by decide
+    rw [if_neg this]
+    unfold Call.toRec
+    rw [hp]
+    rfl
+  | some p =>
+    simp only [Option.isSome_some, if_true]
+    have hnot : ¬ c.type ≥ 2 := by omega
+    rw [if_neg hnot, hspec]
+    have hpk : packArgs fx c.chosen c.vals c.m0 = .ok p := by
+      unfold Call.payload at hp
+      split at hp
+      · rename_i q hq; injection hp with hp; rw [hq, hp]
+      · cases hp
+    obtain ⟨r1, _⟩ := parse_pack fx c.chosen c.vals c.m0 p tail hlen (sel_wf _ hwf) hv hpk
+    unfold Call.chosen at r1
+    rw [r1]
+    simp only
+    unfold Call.toRec
+    rw [hp]
+    rfl
+
+
+theorem decodeAll_calls (fx : Fix) (specOf : Nat → List Spec) :
+    ∀ (cs : List Call) (fuel : Nat), (∀ c ∈ cs, CallOk specOf c) → cs.length ≤ fuel →
+      decodeAll specOf fuel (cs.flatMap (Call.bytes fx)) = some (cs.map (Call.toRec fx)) := by
+  intro cs
+  induction cs with
+  | nil =>
+    intro fuel _ _
+    cases fuel <;> simp [decodeAll]
+  | cons c cs ih =>
+    intro fuel hok hf
+    cases fuel with
+    | zero => simp at hf
+    | succ fuel =>
+      rw [List.flatMap_cons, decode_step fx specOf c (hok c (by simp)) fuel,
+        ih fuel (fun x hx => hok x (by simp [hx])) (by simpa using hf)]
+      simp
+
+
+theorem bytes_length_pos (fx : Fix) (c : Call) : 1 ≤ (c.bytes fx).length := by
+  unfold Call.bytes recordBytes hdrBytes
+  cases c.payload fx <;> simp <;> omega
+
+
+theorem flatMap_length_ge (fx : Fix) : ∀ (cs : List Call), cs.length ≤ (cs.flatMap (Call.bytes fx)).length := by
+  intro cs
+  induction cs with
+  | nil => simp
+  | cons c cs ih =>
+    rw [List.flatMap_cons, List.length_append, List.length_cons]
+    have := bytes_length_pos fx c
+    omega
+
+
+/-- sizes parse_argspec can produce and the fetchers respect: scalars at most 32 bytes, a struct's
+    stored bytes exceed its size by at most four registers -/
+def Sized (sp : Spec) (v : Val) : Prop :=
+  (sp.isStr = false → sp.fmt ≠ .strct → sp.size ≤ 32) ∧ (sp.fmt = .strct → v.asBlob.length ≤ sp.size + 32)
+
+
+theorem copyImg_length_le (s : List Byte) (room : Nat) : (copyImg s room).length ≤ room := by
+  have hL : copyLen s.length room = min (min s.length 98) room := rfl
+  unfold copyImg
+  split
+  · simp only [List.length_take]; omega
+  · rename_i hne
+    split
+    · simp only [List.length_append, List.length_singleton]; omega
+    · simp only [List.length_append, List.length_take, List.length_cons, List.length_nil]; omega
+
+
+theorem maxSize_fixed {fx : Fix} (hb : fx.bounds = true) : maxSize fx = 988 := by
+  unfold maxSize; rw [if_pos hb]; rfl
+
+
+theorem packOne_hi (fx : Fix) (hb : fx.bounds = true) (sp : Spec) (v : Val) (st : St)
+    (hs : Sized sp v) (hv : ValOk v) (hhi : st.mem.hi ≤ SLICE) : (packOne fx sp v st).mem.hi ≤ SLICE := by
+  have hmax := maxSize_fixed hb
+  unfold packOne
+  by_cases hc1 : fx.bounds = true ∧ st.total > maxSize fx
+  · rw [if_pos hc1]; exact hhi
+  · rw [if_neg hc1]
+    have ht : st.total ≤ 988 := by
+      rw [hmax] at hc1
+      by_cases h : st.total ≤ 988
+      · exact h
+      · exact absurd ⟨hb, by omega⟩ hc1
+    by_cases hc2 : sp.fmt = .strct ∧ st.total + sp.size > maxSize fx
+    · rw [if_pos hc2]; exact hhi
+    · rw [if_neg hc2]
+      by_cases hstr : sp.isStr = true
+      · rw [if_pos hstr]
+        unfold packStr
+        cases hsrc : v.src with
+        | some s =>
+          simp only
+          obtain ⟨_, _, p3⟩ := copyLoop_post s (roomOf fx st.total) (4 + st.total + 2) (hv s hsrc) 100 0 st.mem
+            (Nat.zero_le _) (by omega) (fun k hk => absurd hk (Nat.not_lt_zero k))
+          have hroom : roomOf fx st.total = 988 - st.total := by
+            rw [roomOf_le (by omega), hmax]
+          have hW := copyImg_length_le s (roomOf fx st.total)
+          have := hi_blit_le (copyLoop s (roomOf fx st.total) (4 + st.total + 2) 100 0 st.mem).1 (4 + st.total)
+            (leBytes 2 (copyLoop s (roomOf fx st.total) (4 + st.total + 2) 100 0 st.mem).2)
+          rw [leBytes_length] at this
+          unfold SLICE at hhi ⊢
+          omega
+        | none =>
+          simp only
+          have h1 := hi_blit_le st.mem (4 + st.total) (leBytes 2 4)
+          have h2 := hi_blit_le (st.mem.blit (4 + st.total) (leBytes 2 4)) (4 + st.total + 2) (nullBytes fx)
+          rw [leBytes_length] at h1
+          rw [nullBytes_length] at h2
+          unfold SLICE at hhi ⊢
+          omega
+      · rw [if_neg hstr]
+        by_cases hst : sp.fmt = .strct
+        · rw [if_pos hst]
+          simp only
+          have h1 := hi_blit_le st.mem (4 + st.total) v.asBlob
+          have h2 := hs.2 hst
+          rw [hmax] at hc2
+          unfold SLICE at hhi ⊢
+          have : st.total + sp.size ≤ 988 := by
+            by_cases h : st.total + sp.size ≤ 988
+            · exact h
+            · exact absurd ⟨hst, by omega⟩ hc2
+          omega
+        · rw [if_neg hst]
+          simp only
+          have h1 := hi_blit_le st.mem (4 + st.total) (leBytes (align4 sp.size) v.asWord)
+          rw [leBytes_length] at h1
+          have h2 := hs.1 (by simpa using hstr) hst
+          have ha : align4 sp.size ≤ 32 := by unfold align4; omega
+          unfold SLICE at hhi ⊢
+          omega
+
+
+theorem packRun_hi (fx : Fix) (hb : fx.bounds = true) : ∀ (specs : List Spec) (vals : List Val) (st : St),
+    (∀ p ∈ specs.zip vals, Sized p.1 p.2 ∧ ValOk p.2) → st.mem.hi ≤ SLICE →
+    (packRun fx specs vals st).mem.hi ≤ SLICE := by
+  intro specs
+  induction specs with
+  | nil => intro vals st _ h; simpa [packRun] using h
+  | cons sp specs ih =>
+    intro vals st hp h
+    cases vals with
+    | nil => simpa [packRun] using h
+    | cons v vals =>
+      simp only [packRun]
+      have h0 := hp (sp, v) (by simp)
+      have h1 := packOne_hi fx hb sp v st h0.1 h0.2 h
+      split
+      · exact h1
+      · exact ih vals _ (fun p hpm => hp p (by simp [List.zip_cons_cons, hpm])) h1
+
+
+def w18 : List Byte := [65, 65, 65, 65, 65, 65, 65, 65, 65, 65, 65, 65, 65, 65, 65, 65, 65, 65]
+
+
+theorem isStr_not_strct {sp : Spec} (h : sp.isStr = true) : sp.fmt ≠ .strct := by
+  intro hf; unfold Spec.isStr at h; rw [hf] at h; simp at h
+
+
+theorem maxSize_ge (fx : Fix) : 988 ≤ maxSize fx := by
+  unfold maxSize SLICE; split <;> omega
+
+
+theorem single_str_ok (fx : Fix) (sp : Spec) (hsp : sp.isStr = true) (v : Val) (hv : ValOk v)
+    (hsv : v = .null ∨ ∃ s, v.src = some s) (m0 : Mem) :
+    ∃ p, packArgs fx [sp] [v] m0 = .ok p := by
+  have hm := maxSize_ge fx
+  have hst : (packRun fx [sp] [v] (St.init m0)) = packStr fx v.src (St.init m0) := by
+    simp only [packRun]
+    have e : packOne fx sp v (St.init m0) = packStr fx v.src (St.init m0) := by
+      unfold packOne
+      rw [if_neg (by simp [St.init]), if_neg (by intro h; exact isStr_not_strct hsp h.1), if_pos hsp]
+    rw [e]
+    split <;> rfl
+  unfold packArgs
+  simp only
+  rw [hst]
+  cases hsrc : v.src with
+  | none =>
+    have hhi : (packStr fx none (St.init m0)).mem.hi ≤ SLICE := by
+      simp only [packStr, St.init]
+      have h1 := hi_blit_le { m0 with hi := 0 } (4 + 0) (leBytes 2 4)
+      have h2 := hi_blit_le (Mem.blit { m0 with hi := 0 } (4 + 0) (leBytes 2 4)) (4 + 0 + 2) (nullBytes fx)
+      rw [leBytes_length] at h1
+      rw [nullBytes_length] at h2
+      unfold SLICE
+      simp only at h1
+      omega
+    have htot : (packStr fx none (St.init m0)).total = 8 := by simp [packStr, St.init, align4]
+    rw [if_neg (by omega), if_neg (by omega)]
+    exact ⟨_, rfl⟩
+  | some s =>
+    obtain ⟨p1, _, p3⟩ := copyLoop_post s (roomOf fx 0) (4 + 0 + 2) (hv s hsrc) 100 0 { m0 with hi := 0 }
+      (Nat.zero_le _) (by omega) (fun k hk => absurd hk (Nat.not_lt_zero k))
+    have hroom : roomOf fx 0 = maxSize fx := by rw [roomOf_le (Nat.zero_le _)]; omega
+    have hW : (copyImg s (roomOf fx 0)).length ≤ 99 := by
+      unfold copyImg
+      have hL : copyLen s.length (roomOf fx 0) = min (min s.length 98) (roomOf fx 0) := rfl
+      split
+      · simp only [List.length_take]; omega
+      · split
+        · simp only [List.length_append, List.length_singleton]; omega
+        · simp only [List.length_append, List.length_take, List.length_cons, List.length_nil]; omega
+    have hL : (copyLoop s (roomOf fx 0) (4 + 0 + 2) 100 0 { m0 with hi := 0 }).2 ≤ 98 := by
+      rw [p1]; unfold copyLen; omega
+    have hhi : (packStr fx (some s) (St.init m0)).mem.hi ≤ SLICE := by
+      simp only [packStr, St.init]
+      have := hi_blit_le (copyLoop s (roomOf fx 0) (4 + 0 + 2) 100 0 { m0 with hi := 0 }).1 (4 + 0)
+        (leBytes 2 (copyLoop s (roomOf fx 0) (4 + 0 + 2) 100 0 { m0 with hi := 0 }).2)
+      rw [leBytes_length] at this
+      unfold SLICE
+      simp only at p3
+      omega
+    have htot : (packStr fx (some s) (St.init m0)).total ≤ 100 := by
+      simp only [packStr, St.init]
+      unfold align4; omega
+    rw [if_neg (by omega), if_neg (by omega)]
+    exact ⟨_, rfl⟩
+
 
 end Uft.Argbuf
